@@ -86,6 +86,22 @@ func c11FileBody(version int) string {
 	return b.String()
 }
 
+// c11BigBody returns n bytes of deterministic text that deflates to roughly half its size.
+func c11BigBody(n int, seed uint32) []byte {
+	const hexd = "0123456789abcdef"
+	b := make([]byte, n)
+	x := seed*2654435761 + 12345
+	for i := range b {
+		if i%64 == 63 {
+			b[i] = '\n'
+			continue
+		}
+		x = x*1664525 + 1013904223
+		b[i] = hexd[x>>28]
+	}
+	return b
+}
+
 func c11Commit(g *fw.Git, dir string, n int) {
 	must := func(err error) {
 		if err != nil {
@@ -196,7 +212,17 @@ func c11Build(c *fw.Ctx, of string) *c11Repo {
 	os.Remove(mainDir)
 	c.GitHome().MustRun("clone", "-q", "--shared", altDir, mainDir)
 	g := c.GitHome().In(mainDir).C("gc.auto=0")
+	// two revisions of a 100 KiB, poorly compressible file: a packed base and a packed delta whose
+	// inflated and deflated sizes exceed the 32/64 KiB copy and read buffers
+	big1 := c11BigBody(100*1024, 1)
+	big2 := append(append(append([]byte(nil), big1[:50*1024]...), c11BigBody(1024, 2)...), big1[51*1024:]...)
+	big2 = append(big2, c11BigBody(2048, 3)...)
 	for n := 4; n <= 8; n++ {
+		if n == 4 || n == 5 {
+			if err := os.WriteFile(filepath.Join(mainDir, "big.bin"), map[int][]byte{4: big1, 5: big2}[n], 0o644); err != nil {
+				fw.Abort("c11 build: %v", err)
+			}
+		}
 		c11Commit(g, mainDir, n)
 	}
 	g.C("pack.writeReverseIndex=true").MustRun("repack", "-a", "-d", "-l", "-q", "--window=10", "--depth=10")
@@ -236,14 +262,14 @@ func c11Build(c *fw.Ctx, of string) *c11Repo {
 	}
 	c11Commit(g, mainDir, 12)
 	g.MustRun("tag", "-a", "-m", "an annotated tag", "v1")
-	big := g.MustRunIn([]byte(strings.Repeat("a large loose blob 0123456789\n", 200)), "hash-object", "-w", "--stdin").S()
+	big := g.MustRunIn(append([]byte(strings.Repeat("a large loose blob 0123456789\n", 200)), c11BigBody(90*1024, 4)...), "hash-object", "-w", "--stdin").S()
 	g.MustRun("fsck", "--strict")
 	c.TracesValidated(1)
 
 	r.dotgit = filepath.Join(mainDir, ".git")
 	for _, o := range g.CatFileAll() {
 		r.model[o.ID] = c11Obj{o.Type, o.Data}
-		if len(o.Data) > r.maxObj {
+		if len(o.Data) > r.maxObj && len(o.Data) < 16*1024 { // "about one object" for the small cache; the big blobs never fit it
 			r.maxObj = len(o.Data)
 		}
 	}
@@ -330,6 +356,14 @@ func c11Build(c *fw.Ctx, of string) *c11Repo {
 	r.roles["packA-commit"] = pick(packA, func(e *c11PackEntry) bool { return e.OnDisk < 5 && r.model[e.Hex].Type == "commit" }, "packA-commit")
 	r.roles["packA-delta"] = pick(packA, func(e *c11PackEntry) bool { return e.OnDisk == 6 }, "packA-delta (ofs)")
 	r.roles["packB-delta"] = pick(packB, func(e *c11PackEntry) bool { return e.OnDisk == 7 }, "packB-delta (ref)")
+	r.roles["packA-big1"] = c11GitID(of, "blob", big1)
+	r.roles["packA-big2"] = c11GitID(of, "blob", big2)
+	{
+		e1, e2 := packA.ByHex[r.roles["packA-big1"]], packA.ByHex[r.roles["packA-big2"]]
+		if e1 == nil || e2 == nil || (e1.OnDisk < 5) == (e2.OnDisk < 5) {
+			fw.Abort("c11 build (%s): the two big blobs are not one base and one delta of pack A (%v %v)", of, e1, e2)
+		}
+	}
 	r.roles["dup"] = dupBlob
 	r.roles["alt-packed"] = pick(packAlt, func(e *c11PackEntry) bool { return e.OnDisk >= 6 }, "alt-packed delta")
 	r.roles["alt-loose"] = altLoose
@@ -857,7 +891,7 @@ func runC11(c *fw.Ctx) {
 	c.Bound("object_formats", []string{"sha1", "sha256"})
 	c.Bound("sequence_length", L)
 	c.Bound("deep_sequence_length", 3)
-	c.SetRule("repositories built by git (alternate with pack+.rev and a loose object; main with an ofs-delta pack with .rev, a ref-delta pack without .rev, loose commit/tree/blob/tag/large blob, two objects both loose and packed), sha1 and sha256; for every combination of ExclusiveAccess x UseInMemoryIdx x LargeObjectThreshold{0,1} x cache{0 bytes, one object, default} x pool{default, capacity 1} x osfs{plain, WithMmap} (x HighMemoryMode in thorough) every sequence of read operations of the stated length over the alphabet (Get any/typed/wrong-type, Has, Size, DeltaObject, partial read then close, Iter per type, HashesWithPrefix; objects by role: loose, packed base, ofs-delta, ref-delta, loose+packed, alternate packed/loose, empty blob, absent) runs on a fresh Storage, each step compared with `git cat-file --batch-all-objects --batch`; by-offset paths: packfile.Packfile and mmap.PackScanner over every object and every ordered pair of role objects with offsets from `git verify-pack -v`; a class is a distinct (operation, role, concrete object type handed out / outcome)")
+	c.SetRule("repositories built by git (alternate with pack+.rev and a loose object; main with an ofs-delta pack with .rev, a ref-delta pack without .rev, loose commit/tree/blob/tag/large blob, two objects both loose and packed), sha1 and sha256; for every combination of ExclusiveAccess x UseInMemoryIdx x LargeObjectThreshold{0,1} x cache{0 bytes, one object, default} x pool{default, capacity 1} x osfs{plain, WithMmap} (x HighMemoryMode in thorough) every sequence of read operations of the stated length over the alphabet (Get any/typed/wrong-type, Has, Size, DeltaObject, partial read then close, Iter per type, HashesWithPrefix; objects by role: loose, packed base, ofs-delta, ref-delta, loose+packed, alternate packed/loose, empty blob, absent) runs on a fresh Storage, each step compared with `git cat-file --batch-all-objects --batch`; by-offset paths: packfile.Packfile and mmap.PackScanner over every object and every ordered pair of role objects with offsets from `git verify-pack -v`; further passes: every object of the repository (including a 100 KiB packed base, its packed delta and a 96 KiB loose blob) through one Storage in ascending/descending id order per read kind and from inside an iteration callback; every shape of prefix (0, 1, 2, hs-1, hs, hs+1 bytes, 00, ff) alone and after a read; the repository with a second alternate; reads before and after writes of new loose objects (ids sorting before, inside and after the existing loose ids) and re-writes of existing objects on the same Storage; a class is a distinct (operation, role, concrete object type handed out / outcome)")
 	c.Assume("git 2.39.5 cat-file/verify-pack/fsck describe the repositories; iteration and prefix search must cover the repository's own objects (objects reachable only through alternates may or may not be listed: IterEncodedObjects does not descend into alternates, HashesWithPrefix does)")
 	c.Assume("a reader is always closed by the caller; storages are closed after each sequence")
 
@@ -872,6 +906,17 @@ func runC11(c *fw.Ctx) {
 	// by-offset drivers first (cheap)
 	for _, r := range repos {
 		c11PackDrivers(c, r)
+	}
+
+	// the smaller passes run before the big product, so that a short time budget cuts the product, not them
+	for _, r := range repos {
+		pc := c11ProductCfgs(c, r, cfgs)
+		c11PrefixForms(c, r, pc)
+		c11TwoAlternates(c, r)
+		c11WritePass(c, r)
+	}
+	for _, r := range repos {
+		c11EveryObject(c, r, c11ProductCfgs(c, r, cfgs))
 	}
 
 	type job struct {
